@@ -264,3 +264,8 @@ def run_case(case):
         return {'module': module_desc(module), 'result': [stop, n, state_out(cpu, p, dd)],
                 'exc': [type(e).__name__, str(e)[:200]]}
     return {'module': module_desc(module), 'result': [stop, n, state_out(cpu, p, dd)]}
+
+
+def instr_table(_):
+    from qvm.instrs import instructions
+    return {i.op: [i.op_code, [o.__name__ for o in i.operands]] for i in instructions}
